@@ -24,7 +24,12 @@ impl View {
     /// allocated but referenced by nothing
     pub fn lost(&self, vc: &VolCtx) -> BTreeSet<u32> {
         let v = &vc.vol;
-        (2..v.clusters + 2).filter(|&c| refat::low(v, self.fats[0][c as usize]) != 0 && self.tree.owner_idx[c as usize] == 0).collect()
+        (2..v.clusters + 2)
+            .filter(|&c| {
+                let e = refat::low(v, self.fats[0][c as usize]);
+                e != 0 && !v.is_bad(e) && self.tree.owner_idx[c as usize] == 0
+            })
+            .collect()
     }
     pub fn free(&self, vc: &VolCtx) -> u32 {
         refat::count_free(&self.fats[0], &vc.vol)
